@@ -22,8 +22,9 @@
     * `C30Gen_agree_one_numeric`   — more generally, whenever at least one side is one of those six and neither side
                                      is a decimal.
     * `C30Gen_exec_total_numeric`  — the executor table never fails on those pairs.
-  Disagreements of the unchanged tree (kernel-checked witnesses; both outside the value model of `IQE.Spec`, which has
-  no DECIMAL / unsigned type, so no correspondence family samples them):
+  Disagreements of the unchanged tree (kernel-checked witnesses in the separate file IQE/Props/C30GenFindings.lean, which
+  is NOT part of the check — a repair of /repo changes those statements; both are outside the value model of `IQE.Spec`,
+  which has no DECIMAL / unsigned type, so no correspondence family samples them):
     * `C30Gen_decimal_int_disagree`  — DECIMAL ∘ integer: the executor picks the INTEGER type (the decimal operand is
                                      cast to an integer: `CAST(1.5 AS DECIMAL(10,2)) + 0` returns 1), the planner
                                      reports Decimal128(38, 10).
@@ -48,7 +49,7 @@ theorem C30Gen_agree_one_numeric (l r : DataType)
          r ∈ [DataType.Int8, .Int16, .Int32, .Int64, .Float32, .Float64])
     (hl : ∀ p s, l ≠ .Decimal128 p s) (hr : ∀ p s, r ≠ .Decimal128 p s) :
     exec_coerce l r = .ok (plan_coerce l r) := by
-  cases l <;> cases r <;> first | rfl | (exfalso; simp at h) | (exfalso; exact hl _ _ rfl) | (exfalso; exact hr _ _ rfl)
+  cases l <;> cases r <;> first | rfl | exact absurd rfl (hl _ _) | exact absurd rfl (hr _ _) | (exfalso; simp at h; done)
 
 theorem C30Gen_exec_total_numeric (l r : DataType)
     (hl : l ∈ [DataType.Int8, .Int16, .Int32, .Int64, .Float32, .Float64])
@@ -58,22 +59,10 @@ theorem C30Gen_exec_total_numeric (l r : DataType)
   simp only [List.mem_cons, List.not_mem_nil, or_false] at hl hr
   rcases hl with rfl | rfl | rfl | rfl | rfl | rfl <;> rcases hr with rfl | rfl | rfl | rfl | rfl | rfl <;> decide
 
-/-- DEFECT (unchanged tree): DECIMAL with an integer is executed in the integer type — the decimal operand is cast to
-    an integer and loses its fraction — while the planner reports Decimal128(38, 10). -/
-theorem C30Gen_decimal_int_disagree (p s : Int) :
-    exec_coerce (.Decimal128 p s) .Int64 = .ok .Int64 ∧ exec_coerce .Int32 (.Decimal128 p s) = .ok .Int64 ∧
-    plan_coerce (.Decimal128 p s) .Int64 = .Decimal128 38 10 ∧ plan_coerce .Int32 (.Decimal128 p s) = .Decimal128 38 10 := by
-  refine ⟨?_, ?_, rfl, rfl⟩ <;> simp [exec_coerce]
-
-/-- Disagreement (unchanged tree): unsigned operands are executed in an unsigned type and reported as Float64. -/
-theorem C30Gen_unsigned_disagree :
-    exec_coerce .UInt32 .UInt32 = .ok .UInt32 ∧ plan_coerce .UInt32 .UInt32 = .Float64 ∧
-    exec_coerce .UInt32 .UInt64 = .ok .UInt64 ∧ plan_coerce .UInt32 .UInt64 = .Float64 := by decide
-
 /-! ### non-vacuity / reading examples -/
-example : exec_coerce .Int32 .Int32 = .ok .Int32 ∧ plan_coerce .Int32 .Int32 = .Int32 := by decide   -- C30-F2, fixed
-example : exec_coerce .Int16 .Int32 = .ok .Int64 ∧ plan_coerce .Int16 .Int32 = .Int64 := by decide
-example : exec_coerce .Float32 .Int64 = .ok .Float64 := by decide
-example : exec_coerce .Boolean .Date32 = .error "_" := by decide
+example : exec_coerce .Int32 .Int32 = .ok .Int32 ∧ plan_coerce .Int32 .Int32 = .Int32 := ⟨rfl, rfl⟩   -- C30-F2, fixed
+example : exec_coerce .Int16 .Int32 = .ok .Int64 ∧ plan_coerce .Int16 .Int32 = .Int64 := ⟨rfl, rfl⟩
+example : exec_coerce .Float32 .Int64 = .ok .Float64 := rfl
+example : exec_coerce .Boolean .Date32 = .error "_" := rfl
 
 end IQE.Props.C30Gen
